@@ -64,8 +64,9 @@ fn gen_scenario(rng: &mut vsim::rng::Rng, thorough: bool) -> Scenario {
                 s.acts.push(MAct { id: format!("rd{}", mi), key: format!("{}reader", p), kind: ActKind::Msg, params: json!({"a": "{{ a }}", "b": "{{ b }}"}), ..Default::default() });
             }
         }
-        // the process env: written by scripts somewhere along the flow (a per-process value), read by the last
-        // step - what a script has put there must still be there after the process was evicted and reloaded
+        // the process env: written by scripts somewhere along the flow (a per-process value, every writer its own
+        // key: writers in parallel branches must not race for one key, the outcome would depend on the schedule by
+        // the program's own fault), read by the last step - what a script has put there must still be there after the process was evicted and reloaded
         if rng.below(5) < 3 {
             let mut n = 0;
             fn env_writers(steps: &mut [MStep], rng: &mut vsim::rng::Rng, n: &mut u32, mi: usize) {
@@ -73,7 +74,7 @@ fn gen_scenario(rng: &mut vsim::rng::Rng, thorough: bool) -> Scenario {
                     if !s.acts.is_empty() && rng.below(3) == 0 {
                         *n += 1;
                         let pos = rng.below(s.acts.len() as u64 + 1) as usize;
-                        s.acts.insert(pos, MAct { id: format!("ew{}_{}", mi, n), kind: ActKind::Code(format!("$env.e{} = a * 10 + b + {};", rng.below(2), 100 * *n)), ..Default::default() });
+                        s.acts.insert(pos, MAct { id: format!("ew{}_{}", mi, n), kind: ActKind::Code(format!("$env.e{} = a * 10 + b + {};", *n, 100 * *n)), ..Default::default() });
                     }
                     for b in s.branches.iter_mut() {
                         env_writers(&mut b.steps, rng, n, mi);
@@ -81,7 +82,7 @@ fn gen_scenario(rng: &mut vsim::rng::Rng, thorough: bool) -> Scenario {
                 }
             }
             env_writers(&mut m.steps, rng, &mut n, mi);
-            m.steps.push(MStep { id: format!("envrd{}", mi), acts: vec![MAct { id: format!("envrd{}_m", mi), key: format!("{}env_reader", p), kind: ActKind::Msg, params: json!({"e0": "{{ $env.e0 }}", "e1": "{{ $env.e1 }}"}), ..Default::default() }], ..Default::default() });
+            m.steps.push(MStep { id: format!("envrd{}", mi), acts: vec![MAct { id: format!("envrd{}_m", mi), key: format!("{}env_reader", p), kind: ActKind::Msg, params: json!({"e1": "{{ $env.e1 }}", "e2": "{{ $env.e2 }}", "e3": "{{ $env.e3 }}", "e4": "{{ $env.e4 }}", "e5": "{{ $env.e5 }}", "e6": "{{ $env.e6 }}"}), ..Default::default() }], ..Default::default() });
         }
         m.outputs.insert("a".into(), None);
         m.outputs.insert("b".into(), None);
